@@ -12,3 +12,7 @@ open CalmVerif.Props.C05 CalmVerif.Props.C05lex
 #check @div_allowed_iff
 #check @div_decision
 #check @div_decision_independent_of_position
+#print axioms CalmVerif.Props.C05.slash_classes_exclusive
+#check @CalmVerif.Props.C05.slash_classes_exclusive
+#print axioms CalmVerif.Props.C05.slash_reading_is_dictated
+#check @CalmVerif.Props.C05.slash_reading_is_dictated
